@@ -17,8 +17,8 @@ def tail(f, n=3):
 meta = {
  "property": prop,
  "summary": am.get("summary", ""),
- "needs_to_manifest": am.get("needs", ""),
- "agent_tests_run": am.get("tests_run", ""),
+ "needs_to_manifest": am.get("needs_to_manifest", am.get("needs", "")),
+ "agent_tests_run": am.get("agent_tests_run", am.get("tests_run", "")),
  "confirmed_by_me": {
    "how": "scratch worktree of /repo HEAD under /tmp/sv (removed afterwards); git apply patch.diff; "
           "PYTHONPATH=<worktree> /venv/bin/python demo (with change) and PYTHONPATH=/repo (without); "
